@@ -230,6 +230,7 @@ type GuardEval struct {
 	// single returned expression (nil = cannot inline).
 	Inline func(fn *types.Func) ast.Expr
 	subst map[types.Object]ast.Expr // parameters of an inlined one-line function → argument expressions
+	aliasDepth int
 }
 
 // Terms collects the role names used by the expressions.
@@ -290,6 +291,63 @@ func (g *GuardEval) objOf(e ast.Expr) types.Object {
 		return g.objOf(x.X)
 	}
 	return nil
+}
+
+// localDef returns the defining expression of a local variable that is defined by one `x := e` (or `var x = e`)
+// and never assigned again; nil otherwise.
+func (g *GuardEval) localDef(obj types.Object) ast.Expr {
+	v, ok := obj.(*types.Var)
+	if !ok || v.IsField() || v.Pkg() == nil || v.Parent() == nil || v.Parent() == v.Pkg().Scope() {
+		return nil
+	}
+	var def ast.Expr
+	writes := 0
+	for _, f := range g.Pkg.Syntax {
+		if f.Pos() > v.Pos() || v.Pos() > f.End() {
+			continue
+		}
+		ast.Inspect(f, func(n ast.Node) bool {
+			switch s := n.(type) {
+			case *ast.AssignStmt:
+				for k, lhs := range s.Lhs {
+					id, ok := lhs.(*ast.Ident)
+					if !ok {
+						continue
+					}
+					if g.Pkg.TypesInfo.Defs[id] == obj || g.Pkg.TypesInfo.Uses[id] == obj {
+						writes++
+						if g.Pkg.TypesInfo.Defs[id] == obj && len(s.Lhs) == len(s.Rhs) {
+							def = s.Rhs[k]
+						}
+					}
+				}
+			case *ast.ValueSpec:
+				for k, id := range s.Names {
+					if g.Pkg.TypesInfo.Defs[id] == obj {
+						writes++
+						if k < len(s.Values) {
+							def = s.Values[k]
+						}
+					}
+				}
+			case *ast.IncDecStmt:
+				if id, ok := s.X.(*ast.Ident); ok && g.Pkg.TypesInfo.Uses[id] == obj {
+					writes++
+				}
+			case *ast.UnaryExpr:
+				if s.Op == token.AND {
+					if id, ok := s.X.(*ast.Ident); ok && g.Pkg.TypesInfo.Uses[id] == obj {
+						writes++ // address taken
+					}
+				}
+			}
+			return true
+		})
+	}
+	if writes != 1 {
+		return nil
+	}
+	return def
 }
 
 func (g *GuardEval) eval(e ast.Expr, env map[string]int64, tc *termCollector) (int64, error) {
@@ -457,6 +515,17 @@ func (g *GuardEval) eval(e ast.Expr, env map[string]int64, tc *termCollector) (i
 		obj := g.objOf(x)
 		if v, ok, err := term(obj, x); ok {
 			return v, err
+		}
+		// a local alias defined once (`earlyReturn := b.processor.earlyReturn`): the expression it stands for
+		if id, isId := x.(*ast.Ident); isId {
+			if def := g.localDef(info.Uses[id]); def != nil && g.aliasDepth < 3 {
+				g.aliasDepth++
+				v, err := g.eval(def, env, tc)
+				g.aliasDepth--
+				if err == nil {
+					return v, nil
+				}
+			}
 		}
 	}
 	return 0, fmt.Errorf("guard term not recognised: %s", types.ExprString(e))
